@@ -14,8 +14,11 @@ class Stop(Exception):
 
 
 class Interp(object):
-    def __init__(self, env):
+    def __init__(self, env, consts=None, methods=None):
         self.env = dict(env)
+        self.consts = consts or {}
+        self.methods = methods or {}  # name -> FunctionDef of same-class methods that may be inlined (self._m())
+        self.depth = 0
         self.appends = {}
         self.returned = False
         self.raised = False
@@ -29,6 +32,8 @@ class Interp(object):
         if isinstance(e, ast.Name):
             if e.id in self.env:
                 return self.env[e.id]
+            if e.id in self.consts:
+                return self.consts[e.id]
             return ("sym", e.id)
         if isinstance(e, ast.BoolOp):
             if isinstance(e.op, ast.And):
@@ -89,6 +94,47 @@ class Interp(object):
             pass
         return self
 
+    def _scan_calls(self, node):
+        """Record constructor calls of interest and inline same-class helper methods found anywhere in `node`."""
+        for c in ast.walk(node):
+            if not isinstance(c, ast.Call):
+                continue
+            d = pyfront.call_name(c) or ""
+            if d in self.record:
+                kw = {}
+                for k in c.keywords:
+                    try:
+                        kw[k.arg] = self.ev(k.value)
+                    except AnalysisError:
+                        kw[k.arg] = ("sym", ast.unparse(k.value))
+                self.built.append(("<expr>", d, kw, c))
+            elif d.startswith("self.") and d[5:] in self.methods and self.depth < 3:
+                f = self.methods[d[5:]]
+                saved = dict(self.env)
+                params = [a.arg for a in f.args.args if a.arg != "self"]
+                for p_, a_ in zip(params, c.args):
+                    try:
+                        self.env[p_] = self.ev(a_)
+                    except AnalysisError:
+                        self.env[p_] = ("sym", ast.unparse(a_))
+                self.depth += 1
+                ret_before = self.returned
+                try:
+                    body = [x for x in f.body if not (isinstance(x, ast.Expr) and isinstance(x.value, ast.Constant))]
+                    try:
+                        self._block(body, None)
+                    except Stop:
+                        pass
+                finally:
+                    self.depth -= 1
+                    self.returned = ret_before
+                    for k in list(self.env):
+                        if not k.startswith("self.") and k not in saved:
+                            del self.env[k]
+                    for k, v in saved.items():
+                        if not k.startswith("self."):
+                            self.env[k] = v
+
     def _block(self, stmts, stop_at):
         for s in stmts:
             if stop_at is not None and stop_at(s):
@@ -121,6 +167,8 @@ class Interp(object):
                 else:
                     self._block(s.orelse, stop_at)
             elif isinstance(s, ast.Return):
+                if s.value is not None:
+                    self._scan_calls(s.value)
                 self.returned = True
                 raise Stop()
             elif isinstance(s, ast.Raise):
@@ -136,6 +184,7 @@ class Interp(object):
                         self.env[c.func.value.id] = self.env[c.func.value.id] + [name]
                 else:
                     self.calls.append(c)
+                    self._scan_calls(c)
             elif isinstance(s, (ast.ClassDef, ast.FunctionDef, ast.Pass)):
                 continue
             else:
